@@ -58,7 +58,22 @@ def rule_r2(ctx):
         else:
             flat.append(e)
     rec(a.value)
-    shape = [("SEP" if isinstance(x, ast.Constant) and x.value in (b", ", ", ") else ("VALUE" if dotted(x) == "value" else norm(x))) for x in flat]
+    def is_value(e):
+        """the field value as parsed (a local standing for its stripped / decoded form included)"""
+        for _ in range(4):
+            while isinstance(e, ast.Call) and isinstance(e.func, ast.Attribute) and e.func.attr in ("decode", "encode"):
+                e = e.func.value
+            if isinstance(e, ast.Call) and isinstance(e.func, ast.Attribute) and e.func.attr == "strip" and len(e.args) == 1 and isinstance(e.args[0], ast.Constant) and e.args[0].value in (b" \t", b"\t ", " \t", "\t "):
+                e = e.func.value
+            if isinstance(e, ast.Name) and e.id != "value":
+                r = resolve_locals(f, e)
+                if r is None or r is e:
+                    return False
+                e = r
+                continue
+            break
+        return dotted(e) == "value"
+    shape = [("SEP" if isinstance(x, ast.Constant) and x.value in (b", ", ", ") else ("VALUE" if is_value(x) else norm(x))) for x in flat]
     if isinstance(a.op, ast.Add) and shape == ["SEP", "VALUE"]:
         ctx.r.ok(rid, "existing entry += ', ' + value", f.loc(a))
     else:
@@ -70,7 +85,7 @@ def rule_r2(ctx):
         while isinstance(e, ast.Call) and isinstance(e.func, ast.Attribute) and e.func.attr in ("decode", "encode"):
             e = e.func.value
         return e
-    if dotted(strip_codec(first.value)) == "value":
+    if is_value(first.value):
         ctx.r.ok(rid, "first occurrence stored unchanged", f.loc(first))
     else:
         ctx.r.violation(rid, key_of(f, None, "first-store"), "the first occurrence of a field is stored as %s" % norm(first.value), f.loc(first))
